@@ -94,8 +94,18 @@ Definition bitbuf_statement : Prop :=
 (* ---------- B: block rendering ---------- *)
 (* the chunks handed to the destination for one block, followed by what stays in the
    accumulator, are the bits carried in plus the bits of the block (padded when last) *)
+(* a match distance has at most 64 extra bits (any distance <= 2^64; in particular every token
+   valid for a DEFLATE window): without it a single write would exceed the 64-bit accumulator *)
+Definition tok_fits (t : tok) : Prop :=
+  match t with
+  | TLit _ => True
+  | TMatch _ dist => dist_extra_bits (fst (dist_symbol dist)) <= 64
+  end.
+Definition event_fits (e : event) : Prop :=
+  match e with EBlock ts _ => Forall tok_fits ts | _ => True end.
+
 Definition encode_block_statement : Prop :=
-  forall sync ts last b, (length (bb_acc b) <= 64)%nat -> block_ok ts ->
+  forall sync ts last b, (length (bb_acc b) <= 64)%nat -> block_ok ts -> Forall tok_fits ts ->
     let '(chunks, b') := encode_block sync ts last b in
     bits_of_bytes (concat chunks) ++ bb_acc b'
       = (if last then pad8 (bb_acc b ++ block_bits ts last) else bb_acc b ++ block_bits ts last) /\
@@ -131,6 +141,9 @@ Definition header_statement : Prop :=
       dyn_header (mkbs (body ++ rest) p) = HOk (lt, dt) (mkbs rest (p + N.of_nat (length body))).
 
 (* ---------- D: symbols round trip ---------- *)
+(* (the premises `oavail st <= length (rout st)` and `olen st <= oavail st` below were added after the
+   first versions of these statements were refuted in Coq: see the comments at the top of
+   proofs/SymbolsProofs.v and proofs/RenderProofs.v) *)
 (* what decoding a token does to the reference inflater's output state *)
 Definition apply_tok (st : ostate) (t : tok) : ostate :=
   match t with TLit b => push b st | TMatch len dist => copy_match len dist st end.
@@ -152,6 +165,7 @@ Definition symbols_statement : Prop :=
     nthN litlens 256 <> 0 ->
     Forall (tok_coded litlens distlens) ts ->
     toks_ok 32768 (oavail st) ts ->
+    oavail st <= N.of_nat (length (rout st)) ->
     (length ts < fuel)%nat ->
     let lcodes := gen_codes litlens in
     let dcodes := gen_codes distlens in
@@ -162,6 +176,7 @@ Definition symbols_statement : Prop :=
 (* apply_toks agrees with the writer-side expansion *)
 Definition apply_toks_expand_statement : Prop :=
   forall ts st, toks_ok 32768 (oavail st) ts -> oavail st = N.of_nat (length (rout st)) ->
+    olen st <= oavail st ->
     rout (apply_toks ts st) = expand_rev ts (rout st) /\
     oavail (apply_toks ts st) = N.of_nat (length (rout (apply_toks ts st))) /\
     olen (apply_toks ts st) + (oavail st - olen st) = oavail (apply_toks ts st) /\
@@ -220,7 +235,7 @@ Definition stream_render_statement : Prop :=
   forall sync level win4k h w flags,
     bytes_ok (hist_data h) ->
     hrun sync level win4k h = Some (w, flags) ->
-    Forall event_ok (run_trace w) ->
+    Forall event_ok (run_trace w) -> Forall event_fits (run_trace w) ->
     bits_of_bytes (run_bytes w) ++ run_acc w = trace_bits (run_trace w) [] /\
     bytes_ok (run_bytes w).
 
